@@ -51,8 +51,8 @@ func genFrame(r *hx.Rand, max, _ int) codec.Frame {
 	if n < 1 {
 		n = 1
 	}
-	if n > 30000 {
-		n = 30000
+	if n > 12000 {
+		n = 12000
 	}
 	return codec.Frame{r.Bytes(n)}
 }
